@@ -3,6 +3,8 @@
 R1  MC_Security: the documented conjectured-security formula as a state machine over the parameter space; every step
     increases one of queries / grinding / extension degree / collision resistance; TLC checks the action property
     'the level never decreases' and the bound level <= collision resistance.
+    Security.tla also has the admissible range of the proximity parameter of the proven estimate as an exact integer
+    condition (n(4m+1) > 8m^2) and the estimate as the capped maximum over that range.
 R3  the harness tabulates Proof::security_level (conjectured and proven) and AcceptableOptions::validate on synthetic
     proofs over the grid; Trace_Security.tla checks that every conjectured value EQUALS the formula, that both estimates
     are monotone along every axis and capped by the collision resistance, and that the policy verdicts are exactly
@@ -50,7 +52,8 @@ def run(tier, seed):
             what = {"row": "a conjectured level differs from the documented formula, or an estimate decreases with more queries / exceeds the collision resistance",
                     "mono": "an estimate decreases when %s grows" % bad.get("axis"),
                     "policy": "the minimum-security policy verdict is not 'level >= minimum'",
-                    "optset": "the option-set policy verdict is not membership"}.get(ev, "trace rejected")
+                    "optset": "the option-set policy verdict is not membership",
+                    "prov_m": "the proven level is not the best level over the admissible proximity parameters (range bound, or a level credited to an inadmissible parameter)"}.get(ev, "trace rejected")
             small = {k: (x if not isinstance(x, list) or len(x) < 12 else x[:12] + ["..."]) for k, x in bad.items()}
             v.violation("security/%s%s" % (ev, "/" + bad.get("axis", "") if ev == "mono" else ("/" + bad.get("kind", "") if ev == "policy" else "")),
                         what + " (trace %s line %d)" % (f["path"], line), small)
@@ -71,7 +74,7 @@ def run(tier, seed):
         "known_finding_occurrences": v.n_known, "new_violations": v.n_new,
     }, time.time() - t0, violations=v.n_new,
         assumptions=["LDE domains above 2^31 cannot be constructed through Context::new and are not tabulated",
-                     "the value of the proven estimate (floating point) is not modelled: only monotonicity, the cap and its use by the policy are checked",
+                     "the per-parameter value of the proven estimate (floating point) is not modelled: monotonicity, the cap, its use by the policy, and - through the hook - the range of proximity parameters it is maximised over are checked",
                      "the refusal of proofs whose claimed field differs from the computation's field is exercised by the STARK-level checks (C03/C06)"])
     return rc
 
